@@ -10,7 +10,7 @@ Extraction "model.ml"
   gi_next gi_next_back gi_nth gi_nth_back gi_last gi_fold gi_rfold replace_at
   abbrev abbrev_len abbrev_lo abbrev_hi debug_lines display_of
   ser_events ser_data deser_tree attach serde_token_text_ty
-  is_send is_sync view_ok other_marker_impls constructible node_send_bounds node_sync_bounds ctor_resolver_bounds green_token_unconditional
+  is_send is_sync view_ok other_marker_impls node_kind_bounds sat constructible node_send_bounds node_sync_bounds ctor_resolver_bounds green_token_unconditional
   Derive.expand from_raw into_raw static_text_of
   tok_ranges chunks v_len v_is_empty v_to_string v_contains v_find v_char_at v_slice v_slice_opt v_eq_str v_eq_view
   cinit crun all_done block_of off_of
